@@ -47,6 +47,11 @@ type Input struct {
 	Procs     int      `json:"procs"`
 	JobSeed   int64    `json:"job_seed"`
 	PreCreate bool     `json:"pre_create"` // direct: the series is ingested into once before the uploader starts
+	// concurrent producers (several sessions share one upstream): per round a fresh Remote whose workers all hang, the queue
+	// filled to capacity minus Slack, then Producers goroutines released together (spin barrier), one Upload each
+	Producers int `json:"producers"`
+	Rounds    int `json:"rounds"`
+	Slack     int `json:"slack"`
 }
 
 // ---------- recording logger (agent.Logger) ----------
@@ -473,6 +478,120 @@ func runRemote(in Input, jobs []*jobDesc) (res lib.Result) {
 
 var logDiscard = log.New(io.Discard, "", 0)
 
+func runProducers(in Input) lib.Result {
+	k := in.Threads
+	perRound := k + (100 - in.Slack) + in.Producers
+	in.Burst = perRound * in.Rounds
+	jobs := mkJobs(in)
+	var maxLat time.Duration
+	var latMu sync.Mutex
+	note := func(d time.Duration) {
+		latMu.Lock()
+		if d > maxLat {
+			maxLat = d
+		}
+		latMu.Unlock()
+	}
+	var reqTerms []string
+	delivered := map[string]int{}
+	var full, errs, panics, bad int64
+	drained := true
+	for rd := 0; rd < in.Rounds; rd++ {
+		js := jobs[rd*perRound : (rd+1)*perRound]
+		srv := &server{script: []string{"hang"}, release: make(chan struct{})}
+		ts := httptest.NewUnstartedServer(http.HandlerFunc(srv.handle))
+		ts.Config.ErrorLog = logDiscard
+		ts.Start()
+		lg := &recLogger{}
+		rem, err := remote.New(remote.RemoteConfig{AuthToken: in.Token, UpstreamThreads: k, UpstreamAddress: ts.URL + in.Path}, lg)
+		if err != nil {
+			ts.Close()
+			return lib.Result{Crash: "remote.New: " + err.Error()}
+		}
+		// every worker hangs on one job
+		for i := 0; i < k; i++ {
+			t0 := time.Now()
+			rem.Upload(js[i].job)
+			note(time.Since(t0))
+		}
+		if !waitUntil(5*time.Second, func() bool { return atomic.LoadInt64(&srv.inflight) >= int64(k) }) {
+			close(srv.release)
+			ts.Close()
+			return lib.Result{Crash: "producers run: the workers did not all reach the server within 5 s"}
+		}
+		// the queue is filled to capacity minus slack by one caller
+		for i := k; i < k+100-in.Slack; i++ {
+			t0 := time.Now()
+			rem.Upload(js[i].job)
+			note(time.Since(t0))
+		}
+		// the producers are released together
+		var ready, goFlag int32
+		var wg sync.WaitGroup
+		returned := make([]int32, in.Producers)
+		starts := make([]time.Time, in.Producers)
+		for p := 0; p < in.Producers; p++ {
+			wg.Add(1)
+			go func(p int) {
+				defer wg.Done()
+				j := js[k+100-in.Slack+p].job
+				atomic.AddInt32(&ready, 1)
+				for atomic.LoadInt32(&goFlag) == 0 {
+				}
+				t0 := time.Now()
+				starts[p] = t0
+				rem.Upload(j)
+				note(time.Since(t0))
+				atomic.StoreInt32(&returned[p], 1)
+			}(p)
+		}
+		for atomic.LoadInt32(&ready) < int32(in.Producers) {
+			runtime.Gosched()
+		}
+		atomic.StoreInt32(&goFlag, 1)
+		done := make(chan struct{})
+		go func() { wg.Wait(); close(done) }()
+		select {
+		case <-done:
+		case <-time.After(1500 * time.Millisecond):
+			// a producer is still inside Upload: it is blocked; its age is its latency
+			for p := 0; p < in.Producers; p++ {
+				if atomic.LoadInt32(&returned[p]) == 0 {
+					note(1500 * time.Millisecond)
+				}
+			}
+		}
+		close(srv.release)
+		ok := waitUntil(8*time.Second, func() bool {
+			srv.mu.Lock()
+			n := int64(len(srv.reqs))
+			srv.mu.Unlock()
+			return n+atomic.LoadInt64(&lg.panics)+atomic.LoadInt64(&lg.full) >= int64(perRound)
+		})
+		<-done
+		if !ok {
+			drained = false
+		}
+		time.Sleep(time.Millisecond)
+		rem.Stop()
+		srv.mu.Lock()
+		for _, q := range srv.reqs {
+			delivered[q.name]++
+			reqTerms = append(reqTerms, fmt.Sprintf("{| o_path := %s; o_name := %s; o_from := %s; o_until := %s; o_spy := %s; o_rate := %s; o_units := %s; o_agg := %s; o_ctype := %s; o_auth := %s; o_body := %s |}",
+				lib.Bytes([]byte(q.path)), lib.Bytes([]byte(q.name)), lib.Bytes([]byte(q.from)), lib.Bytes([]byte(q.until)), lib.Bytes([]byte(q.spy)),
+				lib.Bytes([]byte(q.rate)), lib.Bytes([]byte(q.units)), lib.Bytes([]byte(q.agg)), lib.Bytes([]byte(q.ctype)), optBytes(q.auth), lib.Bytes(q.body)))
+		}
+		srv.mu.Unlock()
+		full += atomic.LoadInt64(&lg.full)
+		errs += atomic.LoadInt64(&lg.errs)
+		panics += atomic.LoadInt64(&lg.panics)
+		bad += atomic.LoadInt64(&srv.bad)
+		ts.CloseClientConnections()
+		ts.Close()
+	}
+	return finish(in, jobs, 0, maxLat, reqTerms, delivered, bad, full, errs, panics, drained)
+}
+
 func runDirect(in Input, jobs []*jobDesc) (res lib.Result) {
 	dir, err := os.MkdirTemp("", "agentb-c20-")
 	if err != nil {
@@ -656,7 +775,7 @@ func finish(in Input, jobs []*jobDesc, hold int, maxLat time.Duration, reqTerms 
 		NonTrivial: in.Burst > 100 || !allOK || in.Refuse,
 		Feat: map[string]interface{}{"mode": in.Mode, "threads": threads, "burst": burstClass, "script": strings.Join(in.Script, ","),
 			"refuse": in.Refuse, "paced": in.Paced, "drops": dropClass(full), "panics_injected": len(in.PanicAt), "token": in.Token != "",
-			"latency": latClass, "timeout_ms": in.TimeoutMs, "after_stop": in.AfterStop},
+			"latency": latClass, "timeout_ms": in.TimeoutMs, "after_stop": in.AfterStop, "producers": in.Producers},
 		Obs: map[string]interface{}{"max_latency_us": int64(maxLat / time.Microsecond), "delivered": ndel, "full_logs": full,
 			"err_logs": errs, "panic_logs": panics, "drained": drained, "bad_responses": bad},
 	}
@@ -689,6 +808,13 @@ func run(in Input) lib.Result {
 	if len(in.Script) == 0 {
 		in.Script = []string{"ok"}
 	}
+	if in.Producers > 0 && in.Mode != "direct" {
+		if in.Rounds < 1 {
+			in.Rounds = 1
+		}
+		in.Script = []string{"hang"}
+		return runProducers(in)
+	}
 	jobs := mkJobs(in)
 	if in.Mode == "direct" {
 		return runDirect(in, jobs)
@@ -714,6 +840,16 @@ func gen(r *rand.Rand, idx int, tier string) Input {
 	in.Path = lib.Pick(r, []string{"", "", "/", "/base", "/a/b"})
 	if lib.Chance(r, 0.2) {
 		in.AfterStop = lib.Pick(r, []int{3, 120})
+	}
+	if idx%10 == 3 { // several producers call Upload at the same moment, the queue being (almost) full
+		in.Producers = lib.Range(r, 2, 16)
+		in.Rounds = 3
+		in.Slack = lib.Pick(r, []int{0, 1, 1, 1, 2, 3})
+		in.Threads = lib.Range(r, 1, 4)
+		in.Procs = lib.Pick(r, []int{4, 16})
+		in.PanicAt, in.AfterStop, in.Paced = nil, 0, false
+		in.Script = []string{"hang"}
+		return in
 	}
 	if idx%5 == 4 { // direct.Direct over a real storage (slower: badger)
 		in.Mode = "direct"
@@ -784,5 +920,5 @@ func gen(r *rand.Rand, idx int, tier string) Input {
 }
 
 func main() {
-	lib.Main(lib.Harness[Input]{Prop: "C20", Quick: 230, Thorough: 2400, Gen: gen, Run: run})
+	lib.Main(lib.Harness[Input]{Prop: "C20", Quick: 180, Thorough: 2400, Gen: gen, Run: run})
 }
